@@ -5,7 +5,8 @@
   Tableau: an atom is a state plus a choice of truth values for the elementary formulas (the X-subformulas and
   `X(f U h)` for every U-subformula); every other subformula is evaluated bottom-up (`val`).  This is the textbook
   (Lichtenstein–Pnueli / Clarke–Grumberg–Peled) atom set; the incremental splitting procedure `_build_atoms` that the
-  code uses to enumerate it is *not* followed line by line (DESIGN.md §3) — only validated through the answers.
+  code uses to enumerate it is followed line by line in PMC/Model/LTLAtoms.lean, and PMC/Properties/C02Atoms.lean proves
+  that the tableau built that way returns the same states as this one.
   Edges = `_does_respect_Xs`; SCCs by the verified `SCC.sccs`; `_is_non_trivial_self_fulfilling`; backward
   reachability; projection on the states of the atoms that make the formula true; complement.
 -/
